@@ -650,12 +650,15 @@ impl Database {
             let mut cursor = btree.cursor_first()?;
 
             let mut keys_to_delete: Vec<Vec<u8>> = Vec::new();
+            let mut rows_affected: usize = 0;
             while cursor.valid() {
                 keys_to_delete.push(cursor.key()?.to_vec());
+                if !crate::database::dml::mvcc_helpers::is_tombstone(cursor.value()?) {
+                    rows_affected += 1;
+                }
                 cursor.advance()?;
             }
 
-            let rows_affected = keys_to_delete.len();
             total_rows_affected += rows_affected;
 
             let mut btree_mut = BTree::new(&mut *storage, root_page)?;
